@@ -1,9 +1,9 @@
 package main
 
 import (
-	"github.com/advancedclimatesystems/gonnx/onnx"
 	"errors"
 	"fmt"
+	"github.com/advancedclimatesystems/gonnx/onnx"
 	"strings"
 
 	"github.com/advancedclimatesystems/gonnx/ops"
